@@ -7,7 +7,7 @@ pid="$1"; out="$2"; L="$3"; pkg="$4"
 export GOFLAGS=-mod=mod GOPROXY=off
 wt="$(mktemp -d /tmp/sv-XXXXXX)"; rmdir "$wt"
 git -C /repo worktree add -q --detach "$wt" HEAD || exit 2
-res() { echo "SEED $pid-$L: $*"; }
+res() { echo "SEED ${SV_TAG:-}$pid-$L: $*"; }
 if ! git -C "$wt" apply "$out/$L.patch" 2>/tmp/sv-apply.err; then res "patch does not apply: $(head -1 /tmp/sv-apply.err)"; git -C /repo worktree remove --force "$wt"; exit 1; fi
 (cd "$wt" && go build ./... ) >/tmp/sv-build.log 2>&1 || { res "does not build"; git -C /repo worktree remove --force "$wt"; exit 1; }
 demo="zz_seed_${L}_demo_test.go"
